@@ -444,7 +444,8 @@ def run(ctx):
 	ctx.assume("sys.argv, sockets (vnet), logging initialisation and the clock generator's time source are replaced from outside")
 	r = ctx.rng("c12")
 	for i in range(ctx.scale(800, 30000)):
-		run_config(ctx, ctx.case_rng("config", i), i)
+		with common.case_watchdog(ctx, "config", {"case": i}, first = 60, second = 60):
+			run_config(ctx, ctx.case_rng("config", i), i)
 		if ctx.too_many() or ctx.time_left() < 0:
 			break
 	ctx.current_case = None
